@@ -276,10 +276,18 @@ func NewSeqDbl(ref func() time.Time) *SeqDbl { return &SeqDbl{RefTime: ref} }
 func (s *SeqDbl) SetDeadFn(f func() bool) { s.dead = f }
 
 // Push appends scripted responses.
-func (s *SeqDbl) Push(r ...SeqResp) { s.mu.Lock(); defer s.mu.Unlock(); s.script = append(s.script, r...) }
+func (s *SeqDbl) Push(r ...SeqResp) {
+	s.mu.Lock()
+	defer s.mu.Unlock()
+	s.script = append(s.script, r...)
+}
 
 // Calls returns the logged calls.
-func (s *SeqDbl) Calls() []SeqCall { s.mu.Lock(); defer s.mu.Unlock(); return append([]SeqCall(nil), s.calls...) }
+func (s *SeqDbl) Calls() []SeqCall {
+	s.mu.Lock()
+	defer s.mu.Unlock()
+	return append([]SeqCall(nil), s.calls...)
+}
 
 func (s *SeqDbl) SubmitBatchTxs(ctx context.Context, req coresequencer.SubmitBatchTxsRequest) (*coresequencer.SubmitBatchTxsResponse, error) {
 	s.mu.Lock()
@@ -352,7 +360,11 @@ func (b *Bcast[T]) WriteToStoreAndBroadcast(ctx context.Context, payload T) erro
 }
 
 // Payloads returns a copy of the recorded payloads.
-func (b *Bcast[T]) Payloads() []T { b.mu.Lock(); defer b.mu.Unlock(); return append([]T(nil), b.Got...) }
+func (b *Bcast[T]) Payloads() []T {
+	b.mu.Lock()
+	defer b.mu.Unlock()
+	return append([]T(nil), b.Got...)
+}
 
 // ---------------------------------------------------------------------------------------------
 // P2P store double
@@ -371,7 +383,11 @@ func NewP2PStore[H goheader.Header[H]]() *P2PStore[H] { return &P2PStore[H]{item
 func (s *P2PStore[H]) Put(h H) { s.mu.Lock(); defer s.mu.Unlock(); s.items[h.Height()] = h }
 
 // PutAt stores an item at an explicit height slot.
-func (s *P2PStore[H]) PutAt(height uint64, h H) { s.mu.Lock(); defer s.mu.Unlock(); s.items[height] = h }
+func (s *P2PStore[H]) PutAt(height uint64, h H) {
+	s.mu.Lock()
+	defer s.mu.Unlock()
+	s.items[height] = h
+}
 
 // SetHeight sets the reported height.
 func (s *P2PStore[H]) SetHeight(h uint64) { s.mu.Lock(); defer s.mu.Unlock(); s.height = h }
@@ -428,7 +444,11 @@ func (s *P2PStore[H]) GetRange(ctx context.Context, from, to uint64) ([]H, error
 	return out, nil
 }
 
-func (s *P2PStore[H]) Init(ctx context.Context, h H) error { s.Put(h); s.SetHeight(h.Height()); return nil }
+func (s *P2PStore[H]) Init(ctx context.Context, h H) error {
+	s.Put(h)
+	s.SetHeight(h.Height())
+	return nil
+}
 
 func (s *P2PStore[H]) Has(ctx context.Context, hash goheader.Hash) (bool, error) {
 	_, err := s.Get(ctx, hash)
